@@ -33,10 +33,17 @@ INFO = {
 }
 
 
+SPARSE = [0, 3, 1000, 70000]      # sparse recodings: offsets and gaps far larger than the vector length
+
+
 def jobs(tier):
     KM.warm()
     KM.kernel()
     out = []
+    for cond in ('relabel-X', 'relabel-Y'):
+        for x0 in range(2):
+            for c in (False, True):
+                out.append({'cond': cond, 'n': 3, 'K': 2, 'K2': 4, 'corr': c, 'pins': {'x0': x0}, 'sparse': True, 'weight': 200, 'label': f'sparse recoding into {SPARSE},x0={x0},corr={c}'})
     for cond, lst in BOUNDS[tier].items():
         for b in lst:
             n, K = b[0], b[1]
@@ -50,6 +57,7 @@ def jobs(tier):
 
 def run_job(job):
     n, K, K2, cond, corr = job['n'], job['K'], job['K2'], job['cond'], job['corr']
+    sparse = bool(job.get('sparse'))
     f = KM.kernel()['mutual_info_estimator_numba']
     st = {}
 
@@ -58,7 +66,10 @@ def run_job(job):
         if cond.startswith('relabel'):
             g = [z3.Int(f'g{i}') for i in range(K)]
             for v in g:
-                ctx.assume(v >= 0, v < K2)
+                if sparse:
+                    ctx.assume(z3.Or([v == c for c in SPARSE]))
+                else:
+                    ctx.assume(v >= 0, v < K2)
             ctx.assume(z3.Distinct(*g))
             st['g'] = g
         else:
@@ -71,7 +82,7 @@ def run_job(job):
             t = st['g'][K - 1]
             for k in range(K - 2, -1, -1):
                 t = z3.If(e == k, st['g'][k], t)
-            out.append(SInt(t, 0, K2 - 1))
+            out.append(SInt(t, 0, max(SPARSE), SPARSE) if sparse else SInt(t, 0, K2 - 1))
         return xnp.Arr(out, 'int32')
 
     def wit(m):
